@@ -4,6 +4,7 @@ import (
 	"go/token"
 	"go/types"
 	"sort"
+	"strconv"
 	"strings"
 
 	"golang.org/x/tools/go/ssa"
@@ -881,5 +882,84 @@ func R20PassOrder(c *Ctx) {
 		c.R.Ok(rule, FuncShort(fn), construct, c.pos(cells.Pos()), "cells are measured on indented lines", true)
 	} else {
 		c.R.Bad(rule, FuncShort(fn), construct, c.pos(cells.Pos()), "the alignment pass runs on lines whose indentation has not been normalised yet: the padding it computes depends on the original indentation, so formatting is not idempotent")
+	}
+}
+
+// R20EscapeSiblings — the writer escapes every byte the reader treats as the start of a special sequence.
+func R20EscapeSiblings(c *Ctx) {
+	const rule = "R20-escape-siblings"
+	c.R.Rule(rule, "every byte value that hclsyntax.ParseStringLiteralToken dispatches on as the first byte of a special slice of a quoted string (backslash escapes, and the template introducers before `{`) is a rune hclwrite.escapeQuotedStringLit tests for when it writes a string: an introducer the writer does not know is written bare, and a literal `%{` or `${` in a value comes back as the start of a template", 2)
+	rd := c.P.Func(PkgYaotl+"/hclsyntax", "ParseStringLiteralToken")
+	wr := c.P.Func(PkgYaotl+"/hclwrite", "escapeQuotedStringLit")
+	if rd == nil || wr == nil {
+		c.R.Anchor(rule, "hclsyntax.ParseStringLiteralToken / hclwrite.escapeQuotedStringLit")
+		return
+	}
+	// reader: constants compared with <slice>[0]
+	reader := map[int64]token.Pos{}
+	for _, f := range HelperClosure(rd, 1) {
+		for _, b := range f.Blocks {
+			for _, in := range b.Instrs {
+				bo, ok := in.(*ssa.BinOp)
+				if !ok || bo.Op != token.EQL {
+					continue
+				}
+				for _, pair := range [][2]ssa.Value{{bo.X, bo.Y}, {bo.Y, bo.X}} {
+					k, isC := ConstInt(pair[1])
+					if !isC {
+						continue
+					}
+					ld, isLd := pair[0].(*ssa.UnOp)
+					if !isLd || ld.Op != token.MUL {
+						continue
+					}
+					if ia, isIA := ld.X.(*ssa.IndexAddr); isIA {
+						if idx, isC0 := ConstInt(ia.Index); isC0 && idx == 0 {
+							reader[k] = bo.Pos()
+						}
+					}
+				}
+			}
+		}
+	}
+	// writer: constants the ranged rune is compared with
+	writer := map[int64]bool{}
+	for _, f := range HelperClosure(wr, 1) {
+		for _, b := range f.Blocks {
+			for _, in := range b.Instrs {
+				bo, ok := in.(*ssa.BinOp)
+				if !ok || bo.Op != token.EQL {
+					continue
+				}
+				for _, pair := range [][2]ssa.Value{{bo.X, bo.Y}, {bo.Y, bo.X}} {
+					k, isC := ConstInt(pair[1])
+					if !isC {
+						continue
+					}
+					if ex, isEx := pair[0].(*ssa.Extract); isEx {
+						if _, isNext := ex.Tuple.(*ssa.Next); isNext {
+							writer[k] = true
+						}
+					}
+				}
+			}
+		}
+	}
+	if len(reader) < 2 || len(writer) < 2 {
+		c.R.Anchor(rule, "the first-byte dispatch of ParseStringLiteralToken and the rune switch of escapeQuotedStringLit")
+		return
+	}
+	var ks []int64
+	for k := range reader {
+		ks = append(ks, k)
+	}
+	sort.Slice(ks, func(i, j int) bool { return ks[i] < ks[j] })
+	for _, k := range ks {
+		construct := "writer tests the reader's special first byte " + strconv.QuoteRune(rune(k))
+		if writer[k] {
+			c.R.Ok(rule, FuncShort(wr), construct, c.pos(wr.Pos()), "escaped on the way out", true)
+		} else {
+			c.R.Bad(rule, FuncShort(wr), construct, c.pos(reader[k]), "the reader gives "+strconv.QuoteRune(rune(k))+" a special meaning at the start of a slice, but the writer never tests for it: a value containing it (followed by `{`, for the introducers) is written unescaped and reads back as something else")
+		}
 	}
 }
